@@ -748,9 +748,10 @@ func (c *Client) Start(msg *Message, handler Handler) error {
 	if closed {
 		return ErrClientClosed
 	}
+	var t *clientTransaction
 	if handler != nil {
 		// Starting transaction only if h is set. Useful for indications.
-		t := acquireClientTransaction()
+		t = acquireClientTransaction()
 		t.id = msg.TransactionID
 		t.start = c.clock.Now()
 		t.h = handler
@@ -768,7 +769,12 @@ func (c *Client) Start(msg *Message, handler Handler) error {
 	}
 	_, err := msg.WriteTo(c.c)
 	if err != nil && handler != nil {
-		c.delete(msg.TransactionID)
+		if !c.release(t, msg.TransactionID) {
+			// The transaction was already completed meanwhile (time out,
+			// close): the handler has been given the outcome, so from the
+			// caller's point of view it was started.
+			return nil
+		}
 		// Stopping transaction instead of waiting until deadline.
 		if stopErr := c.a.Stop(msg.TransactionID); stopErr != nil {
 			return StopErr{
